@@ -393,8 +393,8 @@ fn w_variants(ctx: &mut Ctx) {
                     // astronomically larger than the data (the initial KKT solve returned garbage) is the
                     // recorded finding "initial_point_blowup"; any other dissent keeps the plain signature
                     let majority = ['S', 'P', 'D'].into_iter().max_by_key(|c| classes.iter().filter(|x| *x == c).count()).unwrap();
-                    let data_scale = base.q.iter().chain(&base.b).chain(&base.A.nzval).chain(&base.P.nzval).fold(1.0f64, |m, v| m.max(v.abs()));
-                    let all_blowup = runs.iter().filter(|(mp, _)| verdict_class(mp.status) != majority).all(|(mp, _)| mp.init_norm > 1e20 * data_scale);
+                    let data_scale = base.q.iter().chain(base.b.iter().filter(|v| v.abs() < 1e20)).chain(&base.A.nzval).chain(&base.P.nzval).fold(1.0f64, |m, v| m.max(v.abs()));
+                    let all_blowup = runs.iter().filter(|(mp, _)| verdict_class(mp.status) != majority).all(|(mp, _)| mp.init_norm > 1e12 * data_scale);
                     // second recorded mechanism: objective rescaled (by more than a factor 2 either way) while equilibration is OFF
                     // (first witnesses at 1e4, 1e6, 1e-6; seed 112 added 0.01 and 10)
                     let all_extreme = runs.iter().filter(|(mp, _)| verdict_class(mp.status) != majority).all(|(mp, _)| !mp.equilibrated && !(0.5..=2.0).contains(&mp.cscale));
